@@ -122,6 +122,12 @@ class EffectAnalysis:
         # optional extra origins: method names whose result / attribute names of `self` whose value IS a stored, shared object
         self.source_calls: Dict[str, str] = {}
         self.source_attrs: Dict[str, str] = {}
+        # method names whose result is a FRESH object holding shared parts (a shallow copy of a stored object): C1(origin)
+        self.source_calls_fresh: Dict[str, str] = {}
+        # optional: taints stored into attributes of `self` (instance state that carries a value from one method to another); filled while
+        # analysing when track_self_attrs is set, read back on `self.<attr>` loads - run the methods twice to reach the fixpoint of one hop
+        self.track_self_attrs = False
+        self.attr_taints: Dict[str, TS] = {}
 
     # ---- entry -----------------------------------------------------------------------------------
     def analyse_entry(self, qualname: str) -> Summary:
@@ -320,6 +326,8 @@ class _FuncState:
         if isinstance(t, ast.Attribute):
             base = self.ev(t.value, env)
             self.site(node, base, "store-attribute")
+            if self.A.track_self_attrs and isinstance(t.value, ast.Name) and t.value.id == "self" and v:
+                self.A.attr_taints[t.attr] = self.A.attr_taints.get(t.attr, EMPTY) | v
             return self._hold(t, v, env)
         if isinstance(t, ast.Starred):
             return self.assign(t.value, v, env, node)
@@ -336,6 +344,8 @@ class _FuncState:
         if isinstance(e, ast.Attribute):
             if e.attr in self.A.source_attrs and isinstance(e.value, ast.Name) and e.value.id == "self":
                 return frozenset({("S", self.A.source_attrs[e.attr])})
+            if self.A.track_self_attrs and isinstance(e.value, ast.Name) and e.value.id == "self" and e.attr in self.A.attr_taints:
+                return self.A.attr_taints[e.attr] | elem(self.ev(e.value, env))
             base = self.ev(e.value, env)
             if e.attr in self.A.immutable_fields:
                 return EMPTY  # field annotated with an immutable type everywhere it is declared in the repo
@@ -427,6 +437,8 @@ class _FuncState:
         recv: TS = EMPTY
         if isinstance(fn, ast.Attribute) and fn.attr in self.A.source_calls:
             return frozenset({("S", self.A.source_calls[fn.attr])})
+        if isinstance(fn, ast.Attribute) and fn.attr in self.A.source_calls_fresh and isinstance(fn.value, ast.Name) and fn.value.id == "self":
+            return frozenset({("C1", self.A.source_calls_fresh[fn.attr])})
         if isinstance(fn, ast.Attribute):
             recv = self.ev(fn.value, env)
             m = fn.attr
@@ -456,7 +468,10 @@ class _FuncState:
                 return recv  # a view: iterating it yields the receiver's elements
         # in-repo callee?
         targets = self.A.P.resolve_call(self.f, c)
-        if targets and (allargs or recv):
+        # with configured origins a helper method of `self` can RETURN an origin although nothing tainted goes in (`operand = self._resolve_operand(node)`)
+        via_self = bool(self.A.source_calls_fresh) and isinstance(fn, ast.Attribute) \
+            and isinstance(fn.value, ast.Name) and fn.value.id == "self" and not fn.attr.startswith("visit")
+        if targets and (allargs or recv or via_self):
             out = EMPTY
             for tq in targets[:6]:
                 g = self.A.P.functions.get(tq)
@@ -489,7 +504,7 @@ class _FuncState:
                 if g.name == "__post_init__" and pnames and allargs:
                     # dataclass: the synthesised __init__ stored the arguments in the fields before __post_init__ runs
                     amap[pnames[0]] = cont(allargs)
-                if not any(amap.values()):
+                if not any(amap.values()) and not via_self:
                     continue
                 summ = self.A.analyse(g, amap, self.chain + (g.qualname,))
                 for s in summ.sites:
